@@ -81,7 +81,7 @@ Theorem c17_modelled_functions_unchanged_response : shapes_hold fn_shapes shapes
 Proof. exact generated_shapes_response. Qed.
 
 (* the third-party crates the model represents by hand are pinned at the versions it was written against *)
-Theorem c17_modelled_dependencies_pinned : deps_hold lock_versions cargo_deps = true.
+Theorem c17_modelled_dependencies_pinned : deps_hold repo_lock_present lock_versions harness_lock_versions cargo_deps = true.
 Proof. exact generated_deps. Qed.
 
 Eval vm_compute in "ASSUMPTIONS c17_fits_or_7f". Print Assumptions c17_fits_or_7f.
